@@ -161,6 +161,8 @@ inductive Schema where
   | int
   /-- pallas `NonZeroInt` (an `i64`; decoding rejects 0) -/
   | nzint
+  /-- pallas `PositiveCoin` (a `u64`; private field, `TryFrom<u64>` and the decoder reject 0) -/
+  | posCoin
   /-- `Bytes` / `ByteVec`: definite byte string -/
   | bytes
   /-- `Hash<N>`: definite byte string of exactly `n` bytes -/
@@ -329,6 +331,15 @@ def encNzInt : Value → Option Item
 def decNzInt (it : Item) : Option Value :=
   match it.int? with
   | some i => if intInBits 64 i && decide (i ≠ 0) then some (.int i) else none
+  | none => none
+
+def encPosCoin : Value → Option Item
+  | .nat n => if 0 < n ∧ n < 2 ^ 64 then some (mkUInt n) else none
+  | _ => none
+
+def decPosCoin (it : Item) : Option Value :=
+  match it.uint? with
+  | some n => if 0 < n ∧ n < 2 ^ 64 then some (.nat n) else none
   | none => none
 
 def encBytes : Value → Option Item
@@ -604,7 +615,10 @@ def decEnumFlat (d : Schema → Item → Option Value) (vs : List (Nat × List (
       | some i =>
         if intInBits 64 i then
           match findVariant i 0 vs with
-          | some (pos, fs) => (decArr d 0 fs xs).map (.variant pos)
+          | some (pos, fs) =>
+            -- a variant with fields skips surplus elements (`for i in 0 .. len - 1`); a unit variant returns
+            -- at once and would leave them unread, so only `[n]` is a faithful tree reading of it
+            if fs.isEmpty && !xs.isEmpty then none else (decArr d 0 fs xs).map (.variant pos)
           | none => none
         else none
       | none => none
@@ -840,6 +854,7 @@ def enc (env : Env) : Nat → Schema → Value → Option Item
     | .sint b => encSInt b v
     | .int => encInt v
     | .nzint => encNzInt v
+    | .posCoin => encPosCoin v
     | .bytes => encBytes v
     | .hash n => encHash n v
     | .text => encText v
@@ -881,6 +896,7 @@ def dec (env : Env) : Nat → Schema → Item → Option Value
     | .sint b => decSInt b it
     | .int => decInt it
     | .nzint => decNzInt it
+    | .posCoin => decPosCoin it
     | .bytes => decBytes it
     | .hash n => decHash n it
     | .text => decText it
@@ -942,6 +958,7 @@ def kinds (env : Env) : Schema → List Ty
   | .sint _ => .int :: intKinds
   | .int => .int :: intKinds
   | .nzint => .int :: intKinds
+  | .posCoin => [.u8, .u16, .u32, .u64]
   | .bytes => [.bytes]
   | .hash _ => [.bytes]
   | .text => [.string]
@@ -1014,6 +1031,7 @@ def ok (env : Env) : Nat → Schema → Bool
     | .sint b => b == 8 || b == 16 || b == 32 || b == 64
     | .int => true
     | .nzint => true
+    | .posCoin => true
     | .bytes => true
     | .hash n => decide (n < 2 ^ 64)
     | .text => true
